@@ -144,6 +144,7 @@ def replay(verdict, exe, res, aspects, pol=None, seed=0, renderings=("canonical"
             scripts.append((bid, build_script(b, res.schemas, texts, extra_before, "roundtrip" in aspects, via)))
             meta[bid] = (b, texts, via)
     results = run_behaviours(exe, scripts, tag)
+    script_of = dict(scripts)
     nontrivial = set()
     for bid, (b, texts, via) in meta.items():
         g = results.get(bid)
@@ -153,7 +154,7 @@ def replay(verdict, exe, res, aspects, pol=None, seed=0, renderings=("canonical"
         verdict.cov["traces_validated_against_impl"] += 1
         if any(p["exp"]["status"] != "fail" or len(p["toks"]) > 1 for p in b["parses"]):
             nontrivial.add(desc)
-        replay_obj = {"behaviour": b, "texts": texts}
+        replay_obj = {"behaviour": b, "texts": texts, "script": script_of.get(bid)}
         if g["crash"]:
             verdict.violation("%s:%s:%s" % (sigprefix, g["crash"]["kind"], desc),
                               "%s while executing %s :: %s" % (g["crash"]["kind"], desc, g["crash"]["detail"][:1500]),
